@@ -11,6 +11,7 @@ import (
 	"errors"
 	"fmt"
 	"io"
+	"math"
 	"os"
 	"os/exec"
 	"runtime"
@@ -18,6 +19,7 @@ import (
 	"strings"
 	"sync"
 
+	"seehuhn.de/go/geom/rect"
 	"seehuhn.de/go/postscript"
 	"seehuhn.de/go/postscript/afm"
 	"seehuhn.de/go/postscript/pfb"
@@ -380,16 +382,18 @@ func suiteSched(o *suiteOut, r *rng, tier string, n int) {
 		}
 		o.count("split executions with DSC comments")
 	}
-	// the parts concatenated as they are: a split in the middle of a line, before a comment
+	// the parts concatenated as they are: what ends with each call - the scanner's column (a split in the middle of a
+	// line, before a comment), a pending %%+ continuation, and `stop`
 	for hi, parts := range [][]string{
 		{"1 ", "%%Title: x\n2"}, {"1 ", "% plain\n2"}, {"1\t", "%%Title: x\n2"}, {"/a 1 def ", "%%+ more\na"},
+		{"%%A: 1\n", "%%+ 2\n"}, {"1 stop", " 2"}, {"1 2 add\n", "3\n"}, {"%%A: 1\n1\n", "%%+ 2\n"},
 	} {
 		one := runsLine(o, 200000, false, []string{strings.Join(parts, "")})
 		many := runsLine(o, 200000, false, parts)
 		if one != many {
-			o.fail("C12", "feeding a program in several Execute calls split at token boundaries equals one call (split in mid-line before a comment)", fmt.Sprintf("sched split-midline %d %q", hi, parts), one[:min(len(one), 400)], many[:min(len(many), 400)])
+			o.fail("C12", "feeding a program in several Execute calls split at token boundaries equals one call (what ends with each call: column, %%+ continuation, stop)", fmt.Sprintf("sched split-midline %d %q", hi, parts), one[:min(len(one), 400)], many[:min(len(many), 400)])
 		}
-		o.count("split executions in mid-line before a comment")
+		o.count("split executions: what ends with each call")
 	}
 	o.notes = append(o.notes, "inputs of every kind (programs incl. eexec sections, CMaps, fonts in four formats and from the independent writer, AFM, PFB) under delivery schedules: one byte at a time, data together with EOF, random chunk sizes around the 512-byte buffer, every two-chunk split position (short inputs) or sampled positions, non-seekable source; programs fed in 2-4 Execute calls split at token boundaries (also inside open procedure bodies); oracle: identical result to the single-read run")
 }
@@ -432,12 +436,24 @@ type faultReader struct {
 	// sticky: the error is repeated on later calls (readers built on io.ReadFull rely on that: the standard
 	// library drops an error that arrives together with the last requested byte)
 	sticky bool
+	// err: the error the fault reports (default errInjected); an error that wraps io.EOF without being io.EOF
+	// ("connection closed: EOF") is a fault like any other
+	err error
+}
+
+var errWrappedEOF = fmt.Errorf("connection closed: %w", io.EOF)
+
+func (f *faultReader) fault() error {
+	if f.err != nil {
+		return f.err
+	}
+	return errInjected
 }
 
 func (f *faultReader) Read(p []byte) (int, error) {
 	if f.done {
 		if f.sticky {
-			return 0, errInjected
+			return 0, f.fault()
 		}
 		return 0, io.EOF
 	}
@@ -446,13 +462,13 @@ func (f *faultReader) Read(p []byte) (int, error) {
 		if f.with {
 			f.done = true
 		}
-		return 0, errInjected
+		return 0, f.fault()
 	}
 	n := copy(p, f.data[f.pos:f.failAt])
 	f.pos += n
 	if f.with && f.pos >= f.failAt {
 		f.issued, f.done = true, true
-		return n, errInjected
+		return n, f.fault()
 	}
 	return n, nil
 }
@@ -499,8 +515,11 @@ func suiteFaults(o *suiteOut, r *rng, tier string, n int) {
 		for k := 0; k <= len(in.data); k += step {
 			// a read fault at offset k
 			fr := &faultReader{data: in.data, failAt: k, with: k%3 == 1, sticky: in.kind != "ps" && in.kind != "cmap"}
+			if k%4 == 2 {
+				fr.err = errWrappedEOF
+			}
 			got := runInput(in.kind, fr)
-			line := fmt.Sprintf("fault read %s %d %d with=%v", in.kind, idx, k, fr.with)
+			line := fmt.Sprintf("fault read %s %d %d with=%v wrapped-eof=%v", in.kind, idx, k, fr.with, fr.err != nil)
 			if strings.HasPrefix(got, "panic") {
 				o.fail("C13", "a read fault causes no panic", line, "error", got[:min(200, len(got))])
 			}
@@ -654,6 +673,25 @@ func detOutputs(seed uint64, count int) []string {
 		}
 		d, _, _ := writeMetrics(m)
 		out = append(out, fmt.Sprintf("afm%d:%x|%v|%v", i, sha256.Sum256(d), m.GlyphList(), m.FontBBoxPDF()))
+		{
+			// metrics with degenerate boxes (inverted, NaN: afm.Read accepts them): the union must not depend on the
+			// order in which the glyph map is visited
+			dm := randMetrics(newRng(r.next()))
+			for gi, n := range gnames {
+				if g := dm.Glyphs[n]; g != nil {
+					switch gi % 5 {
+					case 0:
+						g.BBox = rect.Rect{LLx: 1, LLy: 1, URx: 0, URy: 0}
+					case 1:
+						g.BBox = rect.Rect{LLx: 0, LLy: 0, URx: -1, URy: -1}
+					case 2:
+						g.BBox = rect.Rect{LLx: math.NaN(), LLy: 0, URx: 10, URy: 10}
+					}
+				}
+			}
+			dd, _, _ := writeMetrics(dm)
+			out = append(out, fmt.Sprintf("afm-degenerate%d:%x|%v", i, sha256.Sum256(dd), dm.FontBBoxPDF()))
+		}
 		// files with several CMaps
 		rr := newRng(r.next())
 		var buf bytes.Buffer
